@@ -210,6 +210,8 @@ def run(ctx):
     principal_sqrt(ctx)
     scale_safety(ctx)
     logabs_rule(ctx)
+    arg_rule(ctx)
+    rep.floor('CX-9', 1)
     rep.floor('CX-8', 1)
     rep.floor('CX-7', 2)
     rep.floor('M0', 21)
@@ -731,3 +733,42 @@ def logabs_rule(ctx):
         rep.bad('CX-8', name, '; '.join(probs[:2]), loc=loc, key='%s: scaling by the larger component' % name)
     else:
         rep.ok('CX-8', name, '%d paths: log(r) + log1p((q/r)^2)/2 with r >= q on each (= log|z|, ratio <= 1)' % n, loc=loc)
+
+
+def arg_rule(ctx):
+    """CX-9: a_complex_arg(z) = atan2(imag, real) for every z != 0 (both axes included) and 0 only for z = 0: the base function
+    that log, pow and pow_real take their angle from."""
+    rep = ctx.rep
+    name = 'a_complex_arg'
+    fn = ctx.fn('complex', name, have='none')
+    if fn is None:
+        rep.unk('CX-9', name, 'anchor vanished')
+        return
+    loc = fn.loc(fn.entry.instrs[0])
+    try:
+        dom = CDom(getattr(ctx, 'ctab', {}), {'a_real_atan2', 'atan2'})
+        if [t.is_fp for t, n in fn.params] != [True, True]:
+            raise Unsupported('parameter passing of a_complex by value is not two reals')
+        lv = symx.Interp(dom, lookup_in([ctx.module('complex', have='none'), ctx.module('hdr_unit', have='none')]),
+                         inline=lambda n: n not in ('a_real_atan2',)).run(fn, [X, Y])
+    except Unsupported as e:
+        rep.unk('CX-9', name, str(e))
+        return
+    probs = []
+    for lf in lv:
+        ret = sp.sympify(lf.ret)
+        conds = [c for c in lf.pc if isinstance(c, alg.Cond)]
+        if ret == 0:
+            # only for z = 0: the path condition must force both components to zero
+            zero = {str(sp.sympify(c.a)) for c in conds if c.rel() == '==' and sp.sympify(c.b) == 0}
+            if not {'x', 'y'} <= zero:
+                probs.append('returns 0 on the path %s, which does not force both components to be zero (e.g. a purely %s argument)' % (
+                    lf.pc, 'imaginary' if 'y' not in zero else 'real'))
+        else:
+            f = [t for t in ret.atoms(sp.Function) if 'atan2' in str(t.func)]
+            if len(f) != 1 or sp.simplify(ret - f[0]) != 0 or list(f[0].args) != [Y, X]:
+                probs.append('returns %s on the path %s, expected atan2(imag, real)' % (show(ret), lf.pc))
+    if probs:
+        rep.bad('CX-9', name, '; '.join(probs[:2]), loc=loc, key='%s: principal argument' % name)
+    else:
+        rep.ok('CX-9', name, '%d paths: atan2(imag, real) unless both components are zero' % len(lv), loc=loc)
